@@ -46,7 +46,7 @@ def run(ck):
     run_corpus(ck)
     decl_stub.suite_seeds(ck)
     decl_stub.suite_fmt(ck, decl_stub.spec_identifiers(ck.scale(3, 40), ck.rng))
-    decl_stub.suite_generated(ck, ck.scale(60, 1800))
+    decl_stub.suite_generated(ck, ck.scale(60, 1500))
     ck.assumptions.extend([
         'identifiers of the generated specs are Python safe (presets rt / py_safe / routes); hand seeds add names that need '
         'formatting and reserved words the backends rename',
